@@ -252,7 +252,26 @@ variable (p : Prog) (x : Ext)
   rw [exec] <;> rfl
 end
 
-@[gomini] theorem runFor_succ (evc : St → R (Bool × St)) (blk post : St → R (Flow × St)) (k : Nat) (st : St) :
+/-- sequencing: a statement that completes normally hands its state to the rest of the block -/
+theorem runBlock_cons_ok {ex : Stmt → St → R (Flow × St)} {s : Stmt} {st st' : St} (rest : List Stmt)
+    (h : ex s st = .ok (.next, st')) : runBlock ex (s :: rest) st = runBlock ex rest st' := by
+  simp [runBlock, h]
+
+/-- the condition closure of a three-clause `for` with a condition, named so that loop lemmas can be stated
+about `runFor (forCond …) …` (use `simp [-exec_forC, exec_forC_some]`) -/
+def forCond (p : Prog) (x : Ext) (n : Nat) (ce : Expr) : St → R (Bool × St) :=
+  fun s => evalE p x (runBlock (exec p x n)) n ce s >>= fun r => truthy r.1 >>= fun b => pure (b, r.2)
+
+theorem exec_forC_some (p : Prog) (x : Ext) (n : Nat) (init : List Stmt) (ce : Expr) (post body : List Stmt) (st : St) :
+    exec p x (n+1) (.forC init (some ce) post body) st = (runBlock (exec p x n) init st >>= fun r0 =>
+      match r0.1 with
+      | .next => runFor (forCond p x n ce) (runBlock (exec p x n) body) (runBlock (exec p x n) post) n r0.2
+      | _ => .stuck "control flow in for-init") := by
+  rw [exec_forC]; rfl
+
+/-- not in the `gomini` set: bounded loops unroll it explicitly (`attribute [local gomini] runFor_succ`), unbounded ones are
+handled by loop lemmas about `runFor (forCond …) …` -/
+theorem runFor_succ (evc : St → R (Bool × St)) (blk post : St → R (Flow × St)) (k : Nat) (st : St) :
     runFor evc blk post (k+1) st = (match evc st with
     | .ok (false, st1) => .ok (.next, st1)
     | .ok (true, st1) =>
